@@ -551,10 +551,6 @@ Proof.
 Qed.
 
 (* ---------- the property as a statement about whole histories *)
-Fixpoint w_run (w : world) (nx : nat) (ops : list (gop * triple)) : world :=
-  match ops with [] => w | (o, _) :: r => w_run (fst (fst (g_step w nx o))) (nx_next o nx) r end.
-Fixpoint s_run (c : case) (nx : nat) (S : qset) (ops : list (gop * triple)) : qset :=
-  match ops with [] => S | (o, _) :: r => s_run c (nx_next o nx) (spec_step c nx S o) r end.
 
 Theorem history_refines c : tok_ok c -> forall ops w nx S,
   incl (flat_map (fun ot => op_handles (fst ot)) ops) (case_handles c) ->
